@@ -138,15 +138,12 @@ Check (C18_parse_error_at_end_of_input_located :
     /\ flat_map (locations_of (s "/w/q.graphql")) texts = [(2, 1)]).
 Print Assumptions C18_parse_error_at_end_of_input_located.
 
-Check (C18_generate_error_not_located_refuted :
+Check (C18_generate_error_located :
   forall f, exists texts,
     run_texts (scalar_witness f) = Some (1, texts)
-    /\ flat_map (locations_of (s "/w/schema.graphql")) texts = []
-    /\ match run (scalar_witness f) with
-       | Exit _ out _ _ => match f with Human => True | _ => exists t, parse_json out = Some t /\ (json_diags t = Some [] \/ rdjson_diags t = Some []) end
-       | Crash _ _ => False
-       end).
-Print Assumptions C18_generate_error_not_located_refuted.
+    /\ flat_map (locations_of (s "/w/schema.graphql")) texts = [(1, 1)]
+    /\ outcome_written (run (scalar_witness f)) = []).
+Print Assumptions C18_generate_error_located.
 
 Check (C18_json_diagnostics_name_store_files :
   forall p code out err w,
